@@ -1,6 +1,7 @@
 import Pk.Lift
 import Pk.FitLaws
 import Pk.XLocInv
+import Pk.ULocInv
 import Pk.PredictLaws
 import Properties.C01
 /-! # C16 — lift/retract helpers agree with transform for every episode flag
@@ -120,6 +121,20 @@ theorem C16_retract_state_inv (hL : ops.Lawful okp) (w' : Nat × Nat) (hfit : St
   rw [Stage.inv_x_local (rowFn ops okp) (rowFn_xlocInv ops okp) p.s p.w _ (Stage.tr (rowFn ops okp) p.s X0) hx]
   have hrt := Pk.C01.C01_roundtrip_ep ops okp hL p.s p.w.1 p.w.2 w' hfit X0 hT hdom (by rw [hlen0]; exact hmin)
   rw [hrt, ← lastN_map, hlen0, hx0]
+/-- **`retract_input` inverts `lift_input` on the trailing samples** (episode level) -/
+theorem C16_retract_input_inv (hL : ops.Lawful okp) (w' : Nat × Nat) (hfit : Stage.fit p.s p.w = .ok w')
+    (X0 : Ep β) (hT : Typed p.w.1 p.w.2 X0) (hdom : Stage.dom (rowFn ops okp) p.s X0)
+    (hmin : Stage.nSamplesIn p.s 1 ≤ X0.length) :
+    retractInputEp (rowFn ops okp) p ((Stage.tr (rowFn ops okp) p.s X0).map (·.u))
+      = lastN (X0.length - Stage.loss p.s + Stage.gain p.s) (X0.map (·.u)) := by
+  unfold retractInputEp
+  have hu : (((Stage.tr (rowFn ops okp) p.s X0).map (·.u)).map
+        (fun u => (⟨zeros (p.wOut (rowFn ops okp)).1, u⟩ : Row β))).map (·.u)
+      = (Stage.tr (rowFn ops okp) p.s X0).map (·.u) := by
+    simp [List.map_map, Function.comp_def]
+  rw [Stage.inv_u_local (rowFn ops okp) (rowFn_ulocInv ops okp) p.s p.w _ (Stage.tr (rowFn ops okp) p.s X0) hu]
+  have hrt := Pk.C01.C01_roundtrip_ep ops okp hL p.s p.w.1 p.w.2 w' hfit X0 hT hdom hmin
+  rw [hrt, ← lastN_map]
 end inverse
 
 end Pk.C16
